@@ -5,10 +5,24 @@
 From Coq Require Import ZArith List Bool Arith.
 Import ListNotations.
 From OvldV Require Import Model.Order Model.Ty Model.Codec Model.Resolve Spec.Dispatch
-  Proofs.ResolveCands Proofs.ResolveStatic.
+  Proofs.ResolveCands Proofs.ResolveStatic Gen.Leaf Proofs.LeafAgree.
 
 Definition Refl (sub : nat -> nat -> bool) := forall c, sub c c = true.
 Definition Antisym (sub : nat -> nat -> bool) := forall c d, sub c d = true -> sub d c = true -> c = d.
+
+(* second tie to the source: Candidate.dominates, Candidate.sort_key and the arity / required-keyword filter as
+   regenerated from /repo's current text (Gen/Leaf.v) are the functions the model -- and every theorem below -- uses *)
+Theorem C02_leaf_dominates : forall a b, dominates_src a b = dominates a b.
+Proof. exact dominates_agree. Qed.
+Print Assumptions C02_leaf_dominates.
+
+Theorem C02_leaf_sort_key : forall a b, key_gt a b = true <-> lex_gt (sort_key_src a) (sort_key_src b).
+Proof. exact sort_key_agree. Qed.
+Print Assumptions C02_leaf_sort_key.
+
+Theorem C02_leaf_arity : forall m nargs names, arity_ok_src m nargs names = arity_ok m nargs names.
+Proof. exact arity_agree. Qed.
+Print Assumptions C02_leaf_arity.
 
 (* the 'No method' outcome arises exactly when no registered method is applicable *)
 Theorem C02_no_method : forall sub hasm chk fresh, Refl sub -> forall ms k cs,
